@@ -49,6 +49,7 @@ type Scenario struct {
 	Shape      string     `json:"shape"`  // free-text label for signatures
 	NoAnnounce bool       `json:"noAnnounce"`
 	Announce   string     `json:"announce"` // header | outline | both (default both)
+	NoRetry    bool       `json:"noRetry"`
 	Probe      string     `json:"probe"` // directed reproduction, see probeOutlineSidechain
 }
 
@@ -152,6 +153,12 @@ func RunConverge(sc Scenario, slot int) (out *Outcome) {
 					ok = false
 				}
 			}
+			if ok && w.HeightOf(wt) < sc.Allow {
+				// the final tip must be a v2 block: a v1 block has no outline, it can only be
+				// announced by header, and a header that attaches to the receiver's tip is merely
+				// relayed on (peer.go:373-380) -- a node one block behind would never fetch it
+				ok = false
+			}
 			if ok {
 				heaviest = wt
 				break
@@ -160,7 +167,11 @@ func RunConverge(sc Scenario, slot int) (out *Outcome) {
 				fail("infra:winner", "cannot make branch %s sufficiently heavier", sc.Winner)
 				return
 			}
-			w.Extend(mgr[sc.Winner], sc.Winner, 1)
+			if h := w.HeightOf(wt); h < sc.Allow {
+				w.Extend(mgr[sc.Winner], sc.Winner, int(sc.Allow-h))
+			} else {
+				w.Extend(mgr[sc.Winner], sc.Winner, 1)
+			}
 		}
 	} else {
 		// the unique tip that is sufficiently heavier than all others, if any
